@@ -146,64 +146,14 @@ def r3_selection(ctx):
     ctx.ob(rule, name, 'plays and returns the first generated move of the side to move matching the predicate', ok,
            expected='generate_moves(board, board.turn()).iter().find(pred)')
     # predicate as a truth function of the two atoms (move.from == typed from), (move.to == typed to)
-    snaps = closure_snapshots(outs, name)
     pred_ok, found = False, None
-    for c in facts.closures_of(name):
-        o2 = Engine(facts, readonly={CHESSMOVE + '::from_square', CHESSMOVE + '::to_square'}).run(c.name)
-        ctx.touch(c.name)
-        atoms = {}
-
-        def atom(t):
-            """('from'|'to', param index) for `m.<x>_square() == upvarK`"""
-            if t[0] == 'bin' and t[1] == 'Eq':
-                for a, b in ((t[2], t[3]), (t[3], t[2])):
-                    a, b = strip(a), strip(b)
-                    if a[0] == 'fld' and a[2] == '0':
-                        a = strip(a[1])
-                    if b[0] == 'fld' and b[2] == '0':
-                        b = strip(b[1])
-                    if a[0] == 'call' and a[1] in (CHESSMOVE + '::from_square', CHESSMOVE + '::to_square') and b[0] == 'fld' and b[2].startswith('upvar'):
-                        k = int(b[2][5:])
-                        return (a[1].rsplit('::', 1)[1], show(snaps[k]) if k < len(snaps) else '?')
-            return None
-        rows = []
-        okrows = True
-        for o in o2:
-            if o.kind != 'return':
-                okrows = False
-                continue
-            env = {}
-            for a, v in o.conds:
-                k = atom(a)
-                if k is None or not (is_true(v) or is_false(v)):
-                    okrows = False
-                else:
-                    env[k] = is_true(v)
-            val = o.value
-            if val[0] == 'c':
-                res = bool(val[1])
-            else:
-                k = atom(val)
-                if k is None:
-                    okrows = False
-                    res = None
-                else:
-                    res = ('atom', k)
-            rows.append((env, res))
-        A, B = ('from_square', 'arg2'), ('to_square', 'arg3')
-        # evaluate on the four assignments
-        table = {}
-        for va in (False, True):
-            for vb in (False, True):
-                full = {A: va, B: vb}
-                r = None
-                for env, res in rows:
-                    if all(k in full and full[k] == v for k, v in env.items()):
-                        r = full.get(res[1]) if isinstance(res, tuple) else res
-                        break
-                table[(va, vb)] = r
-        found = {'rows': [(sorted((str(k), v) for k, v in env.items()), str(res)) for env, res in rows], 'table': {str(k): v for k, v in table.items()}}
-        pred_ok = okrows and table == {(False, False): False, (False, True): False, (True, False): False, (True, True): True}
+    fc = find_closures(outs)
+    if len(fc) == 1:
+        cname, snaps = next(iter(fc.items()))
+        ctx.touch(cname)
+        table, atoms, okrows = coordinate_predicate(facts, cname, snaps)
+        found = {'compared with': atoms, 'table': {str(k): v for k, v in table.items()}}
+        pred_ok = okrows and table == AND_TABLE and atoms == {'from_square': 'arg2', 'to_square': 'arg3'}
     ctx.ob(rule, name, 'predicate: from == typed from && to == typed to', pred_ok, found=found, expected='m.from_square() == from && m.to_square() == to (exact equality on both squares)')
     # notation
     name, outs = game_outcomes(ctx, 'apply_chess_move_from_raw_algebraic_notation')
@@ -218,11 +168,11 @@ def r3_selection(ctx):
                     en[0][2][0] == ('ref', ('fld', ('der', ('p', 1)), 'board')) and \
                     'turn' in show(en[0][2][1]) and any(s[0] == 'call' and s[1].endswith('Iterator>::find') for s in subterms(ap[0][2][0]))
     ctx.ob(rule, name, 'plays the first (move, label) pair of the side to move whose label equals the input', ok, expected='enumerate(..).iter().find(|m| m.1 == input).0')
-    snaps = closure_snapshots(outs, name)
     pred_ok, found = False, None
-    for c in facts.closures_of(name):
-        o2 = Engine(facts).run(c.name)
-        ctx.touch(c.name)
+    fc = find_closures(outs)
+    for cname, snaps in fc.items():
+        o2 = Engine(facts).run(cname)
+        ctx.touch(cname)
         rets = [o for o in o2 if o.kind == 'return']
         found = [(show(o.value), [show_cond(x) for x in o.conds]) for o in o2]
         if len(o2) == 1 and len(rets) == 1 and not rets[0].conds:
